@@ -68,4 +68,17 @@ def run(chk, prog):
     chk.require(okst, "SHAPE-SEL", "_shape_selection/Static", "union over ALL addresses of the sub-shape re-extended by the same address", derived=show(st)[:300], expected="acc |= loop(inner.get_submap(addr), selection(addr)).extend(addr) for every addr", where=w)
     rs = Evaluator(prog, max_depth=0).eval_fn(ss, m)
     chk.require(is_t(rs.ret, "call") and len(rs.ret[2]) == 2 and rs.ret[2][0] == P("chm") and is_call(rs.ret[2][1], "all"), "SHAPE-SEL", "_shape_selection/start", "starts from Selection.all()", derived=show(rs.ret)[:120], expected="loop(chm, Selection.all())", where=f"{m.rel}:{ss.lineno}")
+    # invalid_subset is `filter(~shape_sel)`: it is only as right as the selection algebra it is built from (C18)
+    from ..report import Check
+    from . import C18
+
+    tmp = Check("C18", chk.tier, chk.seed, write_evidence=False)
+    C18.run(tmp, prog)
+    viol = {(v["rule"], v["instance"]): v for v in tmp.violations}
+    for o in tmp.obligations:
+        v = viol.get((o["rule"], o["instance"]))
+        if v:
+            chk.violation(v["rule"], v["instance"], v["construct"], v["derived"], v["expected"], v["where"])
+        else:
+            chk.ok(o["rule"], o["instance"], o["fact"])
     chk.explanation = "polarity and emptiness test of invalid_subset; exhaustive, address-aligned recursion of _shape_selection"
